@@ -1,12 +1,12 @@
 #!/bin/bash
 # sweep.sh [log]: applies every kept change in turn to /repo (restored after each), runs the repository's pinned tests
-# and the quick tier of the property's check; one line per change. Each change is applied in a scratch worktree (VERIF_REPO), /repo stays untouched. Nothing else may use /verif/gen and bin meanwhile.
+# and the quick tier of the property's check; one line per change. Each change is applied to /repo and undone again (SEEDED_SCRATCH=1 in runseeded.sh would use a scratch worktree instead, but checks that import the protocol package directly then still see /repo). Nothing else may run meanwhile.
 cd /verif
 LOG="${1:-/verif/seeded/sweep_latest.log}"
 : > "$LOG"
 for d in seeded/*/; do
   n=$(basename $d); [ -f $d/patch.diff ] || continue
-  out=$(SEEDED_SCRATCH=1 tools/runseeded.sh $d 2>&1 | tr '\n' ' ' | cut -c1-400)
+  out=$(tools/runseeded.sh $d 2>&1 | tr '\n' ' ' | cut -c1-400)
   echo "$n: $out" >> "$LOG"
 done
 git -C /repo status --short >> "$LOG"
